@@ -119,9 +119,24 @@ def unflatten(built, argspecs, pairs, delim='.', strict_arrays=False):
     # group text values by (path without indexes, tuple of indexes)
     by_key = {}
     order = []
+    # the paths the signature defines, by their spelling: a member name may contain the delimiter, so a key is looked up
+    # whole rather than cut at every delimiter
+    known = {}
+
+    def walk_paths(path, t):
+        known.setdefault(delim.join(path), path)
+        t = _strip(t)
+        while t[0] == 'a':
+            t = _strip(t[1])
+        if t[0] == 'c':
+            for fn, ft in built.flat_fields(t[1]):
+                walk_paths(path + (fn,), ft)
+    for a in argspecs:
+        walk_paths((a[0],), a[1])
     for k, v in pairs:
         idx = tuple(int(x) for x in _IDX.findall(k))
-        path = tuple(_IDX.sub('', k).split(delim))
+        spelled = _IDX.sub('', k)
+        path = known.get(spelled) or tuple(spelled.split(delim))
         by_key.setdefault((path, idx), []).append(v)
 
     def members(t):
